@@ -588,6 +588,19 @@ def drv_repeat(tier, rng):
                 mp['randomAlternativesOrdering'] = True
             rid += 1
             groups.append([{'fam': 'repeat', 'unit': pipeline.PU, 'rid': 'r%d' % rid, 'req': req, 'repeat': 3 if tier == 'quick' else 10}])
+    # near-ties: values closer than the tolerances the methods use (1e-5 Choquet, 1e-6 majority) but not identical -
+    # whatever a method does with them must not depend on map iteration order
+    for mth in ('choquetIntegral', 'majorityHeuristic', 'owa', 'weightedSum'):
+        for _ in range(6 if tier == 'quick' else 30):
+            req = pipeline.gen_data(rng, mth, n=rng.randint(2, 3), m=rng.randint(2, 4), extra=0, positive=True)
+            base = pipeline.PU * rng.choice([1, 2, 4])
+            nud = []
+            for a in req['knownAlternatives']:
+                for j, c in enumerate(sorted(a['criteria'])):
+                    a['criteria'][c] = base
+                    nud.append({'alt': a['id'], 'crit': c, 'k': rng.choice([0, 1, 2, 3, 5]), 'e': 20})
+            rid += 1
+            groups.append([{'fam': 'repeat', 'unit': pipeline.PU, 'rid': 'r%d' % rid, 'req': req, 'nudge': nud, 'repeat': 12 if tier == 'quick' else 40}])
     for c in service.catalogue('quick', rng)[:200:3]:
         rid += 1
         c = dict(c, rid='r%d' % rid, repeat=2)
